@@ -360,3 +360,43 @@ func VerifC16ListSizes() {
 	verifrt.Assert("c16.lists.roundtrip-common-tags", eqTags(b.CommonTags, back.CommonTags))
 	verifrt.Reach("c16.lists.end")
 }
+
+// VerifC16LargeBatches: the list lengths at which a length prefix or a size class changes
+// (127/128/129: varint; 255/256/257: one byte) and the largest batch the property speaks of
+// (500), for both protocols: count and every element survive the round trip, the calculator
+// agrees with the encoder.  Values are one symbolic int64 shared by all metrics.
+func VerifC16LargeBatches() {
+	binary := verifrt.Choose("binary", 2) == 1
+	f := vFactory(binary)
+	n := []int{127, 128, 129, 255, 256, 257, 500}[verifrt.Choose("n", 7)]
+	var b MetricBatch
+	v := verifrt.Int64("value")
+	if !binary {
+		verifrt.Assume(verifrt.And(v >= 0, v < 64)) // one varint size class; the others are decided by the value harnesses
+	}
+	for i := 0; i < n; i++ {
+		m := Metric{Name: "m", Timestamp: int64(i)}
+		m.Value.MetricType = MetricType_COUNTER
+		m.Value.Count = v
+		b.Metrics = append(b.Metrics, m)
+	}
+	buf := thrift.NewTMemoryBuffer()
+	enc := vEncode(buf, f.GetProtocol(buf), &b)
+	calc := &customtransport.TCalcTransport{}
+	verifrt.Assert("c16.large.calc-equals-encoded-length", int(vCalc(calc, f.GetProtocol(calc), &b)) == len(enc))
+	rbuf := thrift.NewTMemoryBuffer()
+	rbuf.Write(enc)
+	var back MetricBatch
+	err := back.Read(f.GetProtocol(rbuf))
+	verifrt.Assert("c16.large.decode-no-error", err == nil)
+	verifrt.Assert("c16.large.decode-consumes-everything", rbuf.Len() == 0)
+	verifrt.Assert("c16.large.metric-count", len(back.Metrics) == n)
+	if len(back.Metrics) == n {
+		ok := true
+		for i := range b.Metrics {
+			ok = verifrt.And(ok, verifrt.And(back.Metrics[i].Timestamp == int64(i), back.Metrics[i].Value.Count == v))
+		}
+		verifrt.Assert("c16.large.every-element-intact", ok)
+	}
+	verifrt.Reach("c16.large.end")
+}
